@@ -81,7 +81,9 @@ def _compare(pm, cm, orc, tag):
     orc.check(sorted(sp['descriptors']) == sorted(sc['descriptors']), tag + ':descriptor-set-differs')
     orc.check(sorted(sp['states']) == sorted(sc['states']), tag + ':state-set-differs')
     orc.check(sorted(sp['context_states']) == sorted(sc['context_states']), tag + ':context-state-set-differs')
-    if orc.v is None:
+    same_sets = sorted(sp['descriptors']) == sorted(sc['descriptors']) and sorted(sp['states']) == sorted(sc['states']) and \
+        sorted(sp['context_states']) == sorted(sc['context_states'])
+    if orc.v is None and same_sets:     # (content is compared object by object: only meaningful for equal sets)
         orc.check(sp['descriptors'] == sc['descriptors'], tag + ':descriptor-content-differs')
         orc.check(sp['states'] == sc['states'], tag + ':state-content-differs')
         orc.check(sp['context_states'] == sc['context_states'], tag + ':context-state-content-differs')
@@ -115,8 +117,9 @@ def mirror_state_tx(kind: int, dv: int, sv: int, mv: int, csv: int, val: str, fl
     """
     One state transaction of the given kind (0 metric, 1 two metrics in two MDS, 2 alert, 3 component, 4 operational,
     5 new context state, 6 update of an existing context state, 7 update two context states of one descriptor, 8 set_location,
-    9 real-time sample array (concrete Decimal samples, symbolic counters and sample count selector)).
-    pre: 0 <= kind <= 9
+    9 real-time sample array (concrete Decimal samples, symbolic counters and sample count selector), 10 a context state is
+    DELETED through the entity interface of a context transaction (together with an update of another state)).
+    pre: 0 <= kind <= 10
     pre: dv >= 0
     pre: sv >= 0
     pre: mv >= 0
@@ -181,6 +184,13 @@ def mirror_state_tx(kind: int, dv: int, sv: int, mv: int, csv: int, val: str, fl
                 st1 = tr.get_context_state('lcs1')
                 st1.LocationDetail.Bed = val
             expected['context_by_handle'] = ['lcs0', 'lcs1']
+        elif kind == 10:
+            ent = pm.entities.by_handle('lc0')
+            del ent.states['lcs1']
+            ent.states['lcs0'].LocationDetail.Bed = val
+            with pm.context_state_transaction() as tr:
+                tr.write_entity(ent, ['lcs0', 'lcs1'])
+            expected['context_by_handle'] = ['lcs0']
         elif kind == 8:
             pm.xtra.set_location(SdcLocation(fac='f', poc='p', bed='b' + str(sel)))
             expected['context_by_handle'] = None   # handles are generated: compared against the report instead
